@@ -722,7 +722,7 @@ def guarded_by_variant(fn, bi, enum_suffix, variant, only=True):
                 continue
             if fn.dominates(tb, bi) and tb != sb:
                 return True
-    # matches! shape
+    # matches! shape (possibly negated: `if !matches!(..) { .. }`)
     for sb in doms:
         t = fn.blocks[sb]["term"]
         if t["k"] != "switch" or t["ty"] != "bool":
@@ -730,20 +730,27 @@ def guarded_by_variant(fn, bi, enum_suffix, variant, only=True):
         l = op_local(t["on"])
         if l is None or op_place(t["on"]).get("p"):
             continue
-        tr = t["otherwise"]
-        if not (fn.dominates(tr, bi) and tr != sb):
-            continue
         fl = [b for v, b in t["targets"] if v == 0]
-        if fl and fl[0] == tr:
+        if not fl or fl[0] == t["otherwise"]:
             continue
+        # resolve the switched bool through copies and negations
+        neg = False
         ds = fn.defs().get(l, [])
-        # follow plain copies (`_37 = _16; switch _37`)
         hops = 0
-        while len(ds) == 1 and ds[0][1] != "term" and ds[0][2]["rv"]["k"] == "use" and \
-                not is_const(ds[0][2]["rv"]["o"]) and not op_place(ds[0][2]["rv"]["o"]).get("p") and hops < 6:
-            l = op_place(ds[0][2]["rv"]["o"])["l"]
+        while len(ds) == 1 and ds[0][1] != "term" and hops < 8:
+            rv = ds[0][2]["rv"]
+            if rv["k"] == "use" and not is_const(rv["o"]) and not op_place(rv["o"]).get("p"):
+                l = op_place(rv["o"])["l"]
+            elif rv["k"] == "unop" and rv["op"] == "Not" and not is_const(rv["a"]) and not op_place(rv["a"]).get("p"):
+                l = op_place(rv["a"])["l"]
+                neg = not neg
+            else:
+                break
             ds = fn.defs().get(l, [])
             hops += 1
+        guarded_edge = fl[0] if neg else t["otherwise"]
+        if not (fn.dominates(guarded_edge, bi) and guarded_edge != sb):
+            continue
         if not ds:
             continue
         ok = True
